@@ -10,6 +10,7 @@ Trace lines:  ask n / rx <hex> / wouldblock / st s e state sbpos flags / cmd <he
 import NV.Common.Proto
 import NV.C13.Model
 import NV.C13.Spec
+import NV.C13.SpecStall
 
 namespace NV.C13
 
@@ -56,6 +57,7 @@ def render : Ev → String
   | .closed => "closed"
   | .crash why => s!"crash {why}"
   | .setcall ok => s!"setcall {if ok then 1 else 0}"
+  | .snoop b => s!"snoop {hexOf b}"
 
 def parseEv (line : String) : Option Ev :=
   match NV.Proto.toks line with
@@ -72,6 +74,7 @@ def parseEv (line : String) : Option Ev :=
   | ["tx", h] => (unhex h).map .tx
   | ["cl", h] => (unhex h).map .cl
   | ["closed"] => some .closed
+  | ["snoop", h] => (unhex h).map .snoop
   | ["setcall", "1"] => some (.setcall true)
   | ["setcall", "0"] => some (.setcall false)
   | ["err"] => some .cberr
@@ -102,6 +105,7 @@ def parseOp (line : String) : Option Op :=
   | ["inputto"] => some (.inputto false)
   | ["inputto", "noecho"] => some (.inputto true)
   | ["serve"] => some .serve
+  | ["snoop", "on"] => some .snoopOn
   | _ => none
 
 /-- `cb <k> err|dest` lines -/
@@ -150,11 +154,11 @@ def runJudge (body : List String) : List String :=
   let (input, impl) := splitJudge body
   match parseCase input with
   | .error l => [s!"bad unparsable-case {l}"]
-  | .ok (p, cbs, _) =>
+  | .ok (p, cbs, ops) =>
     let evs := impl.map (fun l => match parseEv l with
       | some e => e
       | none => Ev.crash l)          -- `crash ...`, `sanitizer ...` and anything unknown
-    match judgeEv p evs (cbs.any (fun e => e.2 == Outcome.dest)) with
+    match judgeEv p evs (cbs.any (fun e => e.2 == Outcome.dest)) ++ judgeStall (sentOf ops) (finishedOf ops) evs with
     | [] => ["ok"]
     | vs => vs.map (fun v => s!"bad {v}")
 
